@@ -13,6 +13,7 @@ git -C "$WT" apply "$PATCH" || { echo "$NAME PATCH-DOES-NOT-APPLY"; git -C /repo
 mkdir -p "$SV"
 rsync -a --exclude /.git --exclude /out --exclude /evidence "$SRC/" "$SV/"
 export MC_ALT_REPO="$WT"
+export MC_ITEM_LIMIT_S="${MC_ITEM_LIMIT_S:-180}"   # a seeded non-termination ends each in-process check after 3 min instead of 10
 CAUGHT=""; MACH=""
 cd "$SV"
 for p in $IDS; do
